@@ -121,6 +121,18 @@ PROPS = {
         "trusted_base": ["fromHTML prescan, fromMetaElement, xmlEncoding, FromBOM hand-modelled; tie: cs html/xml ops fed with the real token stream, meta/xmlenc ops on raw strings, decl ops through Detect"],
         "partial": ["the byte -> token step (x/net/html, encoding/xml) is a parameter of the theorems"],
     },
+    "C04": {
+        "slices": ["C04", "C09", "C05"],
+        "relevant_diff": lambda part, op: part.startswith("DIFF jparse") or part.startswith("DIFF jany"),
+        "assumptions": COMMON_ASSUME + ["sync.Pool returns a previously Put value or New(); bufio.Reader.Reset discards buffered data (trusted)"],
+        "trusted_base": ["Parse/reset hand-modelled; parserState fields, reset assignments, pool constructor and index writes regenerated; tie: hist/dhist ops (pooled vs fresh state, repeated detections, canary-guarded input buffers)"],
+    },
+    "C16": {
+        "slices": ["C16"],
+        "relevant_diff": lambda part, op: part.startswith("DIFF jparse") or part.startswith("DIFF jcap"),
+        "assumptions": COMMON_ASSUME + ["the frame size of the scanner functions and Go's stack limit are runtime matters"],
+        "trusted_base": ["scanner hand-modelled with the Go `lvl` argument explicit; cap facts regenerated; tie: jcap ops at caps 1..6 and the real cap +-1, bomb runs in a child process with an 8 MiB stack"],
+    },
     "C07": {
         "slices": ["tree", "C07", "corpus"],
         "relevant_diff": dets_only("Text"),
